@@ -89,14 +89,27 @@ type stats struct {
 }
 
 type knownFinding struct {
-	ID       string `json:"id"`
-	Property string `json:"property"`
-	Status   string `json:"status"` // open | fixed
-	Commit   string `json:"commit,omitempty"`
-	SigRe    string `json:"sig_re"`  // regexp on the violation signature
-	PlanRe   string `json:"plan_re"` // regexp on the minimised op-kind pattern (optional)
-	What     string `json:"what"`
-	InChild  bool   `json:"in_child,omitempty"` // tolerance predicate implemented in the child (-known)
+	ID       string   `json:"id"`
+	Property string   `json:"property"`
+	Also     []string `json:"also_surfaces_in,omitempty"` // further properties whose checks can meet the same defect
+	Status   string   `json:"status"`                     // open | fixed
+	Commit   string   `json:"commit,omitempty"`
+	SigRe    string   `json:"sig_re"`  // regexp on the violation signature
+	PlanRe   string   `json:"plan_re"` // regexp on the minimised op-kind pattern (optional)
+	What     string   `json:"what"`
+	InChild  bool     `json:"in_child,omitempty"` // tolerance predicate implemented in the child (-known)
+}
+
+func (k *knownFinding) appliesTo(prop string) bool {
+	if k.Property == prop {
+		return true
+	}
+	for _, p := range k.Also {
+		if p == prop {
+			return true
+		}
+	}
+	return false
 }
 
 func die(code int, format string, a ...interface{}) {
@@ -116,7 +129,9 @@ func build(race bool, dst string) error {
 	// go.sum of the harness module = /repo's go.sum + porcupine (committed in sim/go.sum)
 	args := []string{"build", "-tags", "verif", "-gcflags=all=-l", "-o", dst}
 	if race {
-		args = append(args, "-race")
+		// checkptr (implied by -race) rejects goom's deliberate uintptr->pointer conversions; it is
+		// not part of any property, the race detector is the oracle here
+		args = []string{"build", "-tags", "verif", "-race", "-gcflags=all=-l -d=checkptr=0", "-o", dst}
 	}
 	args = append(args, "./cmd/simnode")
 	cmd := exec.Command("go", args...)
@@ -722,7 +737,7 @@ func main() {
 	known := loadKnown()
 	var childKnown []string
 	for _, k := range known {
-		if k.Property == prop && k.Status == "open" && k.InChild {
+		if k.appliesTo(prop) && k.Status == "open" && k.InChild {
 			childKnown = append(childKnown, k.ID)
 		}
 	}
@@ -917,7 +932,7 @@ func finish(r *runner, prop, tier string, seed uint64, cfg propCfg, known []know
 		var kf *knownFinding
 		for i := range known {
 			k := &known[i]
-			if k.Property != prop || k.Status != "open" {
+			if !k.appliesTo(prop) || k.Status != "open" {
 				continue
 			}
 			if ok, _ := regexp.MatchString(k.SigRe, v.Sig); !ok {
